@@ -12,6 +12,12 @@ git diff > "$out/patch.diff"
 for f in $(git ls-files --others --exclude-standard | grep -v '^patch.diff$' | grep -v REPORT); do
   mkdir -p "$out/demo/$(dirname "$f")"; cp "$f" "$out/demo/$f"
 done
+# bring the worktree to /repo's current HEAD so that the change is judged against the current tree
+new=$(git -C /repo rev-parse HEAD)
+if [ "$(git rev-parse HEAD)" != "$new" ]; then
+  git apply -R "$out/patch.diff" && git checkout -q --detach "$new" && git apply "$out/patch.diff" || { echo "patch does not apply to current HEAD"; exit 2; }
+  git diff > "$out/patch.diff"
+fi
 echo "== suite with the change (demo skipped)"
 go build ./... || { echo "BUILD FAILS"; exit 1; }
 suite=$(go test -count=1 -skip "$runre" ./entity/... ./entities/... ./cache/... ./commands/... ./repository/... ./util/... ./api/... ./query/... ./tests/... 2>&1 | grep -v "no test files")
